@@ -69,6 +69,23 @@ def all_exited(processes):
     return True
 
 
+def one_failed(processes):
+    for p in processes:
+        if p.exitcode is not None and p.exitcode != 0:
+            return True
+    return False
+
+
+def abort_run(processes, message):
+    # a worker that is killed while it writes a result keeps the lock of the result queue for ever: the remaining
+    # workers then block in their own writes and never exit, so they have to be stopped before leaving
+    for p in processes:
+        if p.is_alive():
+            p.terminate()
+    logger.error(message)
+    sys.exit(1)
+
+
 def run_realign(gaf, graph, fasta, output=None, cores=1):
     timers = StageTimer()
 
@@ -209,6 +226,11 @@ def realign_gaf(gaf, graph, fasta, output, cores=1):
                     out_string_obj = align_queue.get(timeout=0.5)
                 except queue.Empty:  # queue throws Empty exception after timeout
                     # check if all threads are still alive
+                    if one_failed(processes):
+                        abort_run(
+                            processes,
+                            "One of the processes had a none-zero exit code. One reason could be that one of the processes consumed too much memory and was killed",
+                        )
                     if one_is_alive(processes):
                         continue
                     else:
@@ -258,6 +280,8 @@ def realign_gaf(gaf, graph, fasta, output, cores=1):
                 out_string_obj = align_queue.get(timeout=0.1)
             except queue.Empty:
                 # check if all threads are still alive
+                if one_failed(processes):
+                    abort_run(processes, "One of the processes had a none-zero exit code")
                 if one_is_alive(processes):
                     continue
                 else:
